@@ -25,7 +25,7 @@ def lg_cases(draw, tier="quick"):
     domk = draw(st.sampled_from(["default", "cont1d", "kl", "step", "default", "cont1d"]))
     dom = draw(gen.geom1d_spec(n, [domk]))
     npar = gen.geom_par_dim(dom)
-    c = {"n": n, "m": m, "dom": dom, "backing": draw(st.sampled_from(["matrix", "function", "function", "view"])),
+    c = {"n": n, "m": m, "dom": dom, "backing": draw(st.sampled_from(["matrix", "function", "function", "view", "roll"])),
          "A": draw(gen.mat(m, n, -1, 1)),
          "noise_form": draw(st.sampled_from(["cov_scalar", "cov_vector", "cov_matrix", "prec_scalar", "prec_matrix", "sqrtprec_matrix", "sqrtcov_vector"])),
          "prior_form": draw(st.sampled_from(["cov_scalar", "cov_vector", "cov_matrix", "prec_vector", "sqrtprec_matrix", "sqrtcov_scalar"])),
@@ -42,6 +42,17 @@ def lg_cases(draw, tier="quick"):
          "scale_pow": draw(st.sampled_from([0, 0, 0, -5])),
          # the prior object is first built with other values, its covariance materialised, then it is given its values
          "reassign_after_cov": draw(st.sampled_from([False, False, True]))}
+    if c["backing"] == "roll":
+        # function-backed square model written with numpy functions that act along the last axis of whatever they are given
+        c["m"] = m = n
+        c["A"] = [[(1.0 if j == i else 0.0) - (0.6 if j == (i - 1) % n else 0.0) for j in range(n)] for i in range(n)]
+        c["nvar"], c["data"] = (c["nvar"] * 3)[:m], (c["data"] * 3)[:m]
+        c["NG"] = [[0.0] * m for _ in range(m)]
+        c["dom"] = draw(gen.geom1d_spec(n, ["default", "cont1d"]))
+        if n != npar:
+            c["pvar"] = draw(st.lists(gen.logpos(-0.7, 0.7), min_size=n, max_size=n))
+            c["PG"] = draw(gen.mat(n, n, -0.4, 0.4))
+            c["pmean"], c["probe"], c["x0"] = draw(gen.vec(n, -1, 1)), draw(gen.vec(n, -1, 1)), draw(gen.vec(n, -2, 2))
     if c["backing"] == "view":
         # function-backed model whose forward returns a view of its input (restriction to the first entries)
         c["m"] = m = min(m, n)
@@ -61,8 +72,9 @@ def lg_cases(draw, tier="quick"):
 def nl_cases(draw, tier="quick"):
     c = draw(lg_cases(tier))
     c["nonlinear"] = True
+    c["fd_zero_start"] = draw(st.sampled_from([False, False, True]))
     c["scale_pow"] = 0
-    if c["backing"] == "view":
+    if c["backing"] in ("view", "roll"):
         c["backing"] = "function"
     c["cc"] = draw(st.sampled_from([0.2, 0.5]))
     c["dom"] = draw(gen.geom1d_spec(c["n"], ["default", "cont1d"]))
@@ -118,6 +130,9 @@ def build(c):
         model = cuqi.model.Model(F, m, dom, jacobian=J)
     elif c["backing"] == "matrix":
         model = cuqi.model.LinearModel(Am, range_geometry=m, domain_geometry=dom)
+    elif c["backing"] == "roll":
+        model = cuqi.model.LinearModel(lambda x: x - 0.6 * np.roll(x, 1, axis=-1), lambda y: y - 0.6 * np.roll(y, -1, axis=-1),
+                                       range_geometry=m, domain_geometry=dom)
     elif c["backing"] == "view":
         def vadj(y):
             out = np.zeros(n)
@@ -304,7 +319,15 @@ def run_nonlinear(c, rec):
         r = minimize(nlp, r.x, method="Nelder-Mead", options={"xatol": 1e-10, "fatol": 1e-14, "maxiter": 20000})
         if best is None or r.fun < best.fun:
             best = r
-    refused, xm = refuses(lambda: BP.MAP(disp=False))
+    if c.get("fd_zero_start"):
+        # finite-difference gradients switched on, optimisation started from a point with exactly-zero entries
+        x0z = np.zeros(len(mu))
+        x0z[-1] = 0.5
+        refuses(lambda: BP.posterior.enable_FD())
+        refused, xm = refuses(lambda: BP.MAP(disp=False, x0=x0z))
+        rec.count("fd_zero_start")
+    else:
+        refused, xm = refuses(lambda: BP.MAP(disp=False))
     if refused:
         rec.count("MAP_refused:" + type(xm).__name__)
         return
